@@ -485,8 +485,13 @@ func IterateNaluAnnexb(nals []byte, handler func(nal []byte)) error {
 		start := prePos + preLength
 		pos, length := IterateNaluStartCode(nals, start)
 		if pos == -1 {
-			if start < len(nals) {
-				handler(nals[start:])
+			// 最后一个nal。ISO-14496-10.pdf Annex B: nal后面的trailing_zero_8bits不属于nal
+			end := len(nals)
+			for end > start && nals[end-1] == 0 {
+				end--
+			}
+			if start < end {
+				handler(nals[start:end])
 				return nil
 			} else {
 				return nazaerrors.Wrap(base.ErrAvc)
